@@ -132,7 +132,7 @@ pub open spec fn edts_len(b: EdtsBox) -> int { 8 + (match b.elst { Some(x) => el
 
 pub open spec fn trak_len(b: TrakBox) -> int { 8 + tkhd_len(b.tkhd) + (match b.edts { Some(x) => edts_len(x), None => 0 }) + mdia_len(b.mdia) }
 /// (edit lists are not produced by the muxer: the wire predicate of a track requires their absence for now)
-pub open spec fn trak_wire(b: TrakBox) -> bool { tkhd_wire(b.tkhd) && b.edts is None && mdia_wire(b.mdia) && len_fits(trak_len(b)) }
+pub open spec fn trak_wire(b: TrakBox) -> bool { tkhd_wire(b.tkhd) && b.edts is None && b.meta is None && mdia_wire(b.mdia) && len_fits(trak_len(b)) }
 
 pub open spec fn traks_len(v: Seq<TrakBox>, n: int) -> int
     decreases n
@@ -195,7 +195,7 @@ pub open spec fn minf_fw(b: MinfBox) -> bool {
     (b.vmhd matches Some(x) ==> vmhd_wire(x)) && (b.smhd matches Some(x) ==> smhd_wire(x)) && dinf_fw(b.dinf) && stbl_fw(b.stbl)
 }
 pub open spec fn mdia_fw(b: MdiaBox) -> bool { mdhd_wire(b.mdhd) && hdlr_fw(b.hdlr) && minf_fw(b.minf) }
-pub open spec fn trak_fw(b: TrakBox) -> bool { tkhd_wire(b.tkhd) && b.edts is None && mdia_fw(b.mdia) }
+pub open spec fn trak_fw(b: TrakBox) -> bool { tkhd_wire(b.tkhd) && b.edts is None && b.meta is None && mdia_fw(b.mdia) }
 pub open spec fn moov_fw(b: MoovBox) -> bool {
     &&& mvhd_wire(b.mvhd) && b.meta is None && b.udta is None && b.mvex is None
     &&& forall|i: int| 0 <= i < b.traks@.len() ==> trak_fw(#[trigger] b.traks@[i])
